@@ -179,7 +179,8 @@ class Run:
         self.case = case
         self.T = int(case['T'])
         self.sim = Sim()
-        self.sim.external_pending = _pool_threads_alive
+        self.sim.external_pending = self._helpers_pending
+        self._polls = 0
         self.buffer = None
         self.prods = {}
         self.running = []       # [(callno, live set, future)]
@@ -192,6 +193,18 @@ class Run:
         self.fmatch = {}        # script index of a 'fclear'/'okfclear' -> (script index, event) of the matching 'fput'
         self.fthread = {}       # script index of a 'fput' -> the thread parked before its second operation
         self.idx = -1
+
+    PATIENCE = 400          # polls of 5 ms: a helper thread that is still there after 2 s is parked for good
+
+    def _helpers_pending(self):
+        """a to_async_iter helper thread is still forwarding elements: wait for it before declaring
+        quiescence — but not forever: a helper that stays (its generator was abandoned, e.g. by a daemon
+        that swallowed its cancellation) must not stall the run"""
+        if not _pool_threads_alive():
+            self._polls = 0
+            return False
+        self._polls += 1
+        return self._polls < self.PATIENCE
 
     # -- harness-owned user code -------------------------------------------
     async def fn(self, inputs):
@@ -253,6 +266,7 @@ class Run:
 
     def handler(self, ev):
         self.idx = self.sim.step
+        self._polls = 0
         if self.shut:
             return
         k = ev[0]
